@@ -212,11 +212,16 @@ impl Check for RigCheck {
                 }
             }
             // B: chunked.
-            let opts = RigOpts { check_retire: true, probe_waits: true, max_actions: 6000 };
+            // (long inputs need proportionally more actions to get through)
+            let longest = cb.ins.iter().map(|p| p.total()).max().unwrap_or(0);
+            let opts = RigOpts { check_retire: true, probe_waits: true, max_actions: 6000 + longest / 8 };
             let oracle: Vec<Vec<u8>> = ca.outs.iter().map(|o| o.bytes().to_vec()).collect();
             let nf = findings.len();
             let b_complete = run_drip(&mut cb, &solo, src, ctx, &opts, Some(&oracle), &mut findings, &mut stats);
             let b_fatal = findings[nf..].iter().any(|f| f.key.contains(":panic") || f.key.ends_with(":err"));
+            if std::env::var("VERIF_DEBUG_LONG").is_ok() && longest > 100_000 {
+                eprintln!("long case {}: b_complete {b_complete} a_complete {a_complete} A out {} B out {} work_calls {}", cb.kind, ca.outs[0].collected(), cb.outs[0].collected(), stats.work_calls);
+            }
             if !b_fatal && b_complete {
                 cb.finish();
             }
